@@ -18,12 +18,17 @@ type Violation struct {
 
 // ---------------- C14
 
+type StreamPos struct {
+	B uint64 `json:"b"` // 64-byte blocks
+	O uint64 `json:"o"` // offset inside the block
+}
+
 type StreamOp struct {
-	Op   string `json:"op"`
-	G    int    `json:"g"`
-	K    int    `json:"k"`
-	From int    `json:"from"`
-	Path string `json:"path"`
+	Op   string    `json:"op"`
+	G    int       `json:"g"`
+	K    int       `json:"k"`
+	From StreamPos `json:"from"`
+	Path string    `json:"path"`
 }
 
 type StreamCase struct {
@@ -69,11 +74,27 @@ func RunStream(c StreamCase) (res Result) {
 				buf[j] = byte(rng.Intn(256))
 			}
 			gens[op.G-1].Read(buf)
-			want := ref.ChaChaStream(key, nonce, op.From, op.K)
+			from := op.From.B*64 + op.From.O
+			want := ref.ChaChaStream(key, nonce, from, op.K)
 			if !bytes.Equal(buf, want) {
-				add("KeystreamRFC8439", fmt.Sprintf("op %d: Read(%d) on generator %d is not keystream[%d,%d)", i, op.K, op.G, op.From, op.From+op.K))
+				add("KeystreamRFC8439", fmt.Sprintf("op %d: Read(%d) on generator %d is not keystream[%d,%d)", i, op.K, op.G, from, from+uint64(op.K)))
 				return
 			}
+		case "craft": // a state written by hand: seed || zero-padded customizer || little-endian byte counter
+			st := append(append([]byte{}, key...), nonce...)
+			cnt := op.From.B*64 + op.From.O
+			for b := 0; b < 8; b++ {
+				st = append(st, byte(cnt>>(8*uint(b))))
+			}
+			g2, err := random.RestoreChacha20PRG(st)
+			if err != nil {
+				add("Restore", err.Error())
+				return
+			}
+			if !bytes.Equal(g2.Store(), st) {
+				add("StoreLayout", fmt.Sprintf("op %d: Store() after restoring %x gives %x", i, st, g2.Store()))
+			}
+			gens[0] = g2
 		case "fork":
 			st := gens[op.G-1].Store()
 			if len(st) != 52 || !bytes.Equal(st[:32], key) || !bytes.Equal(st[32:44], nonce) {
